@@ -12,6 +12,7 @@ import LitexModel.Export.MemImage
           S: get_csr_svd absolute address per simple CSR
   call decode <busword> <aw> <paging> <ratio> <off> ; <bank> ; ...   -> `b:i b:i ...` (or `-`) strobed by a 32-bit
        access (ratio > 1: load through the AXI-Lite wide->32 down-converter, which reads every part of the bus word)
+  call sweep <busword> <aw> <paging> ; <bank> ; ...          -> `adr:b:i ...` for every CSR-bus address 0 .. 2^aw-1
   call accread <busword> <nw> <w0> <w1> ...                  -> value | none      (generated reader on load results)
   call accwrite <busword> <nw> <v>                           -> w0 w1 ... | none  (generated writer's store data)
   call hwwords <big> <busword> <size> <v>                    -> w0 w1 ...         (ascending addresses)
@@ -51,6 +52,11 @@ def call (args : List String) : Option String :=
     some s!"J {showBanks j} # H {showBanks h} # S {showBanks s}"
   | "decode" :: bw :: aw :: pg :: ratio :: off :: rest => do
     some (showHits (hwDecodeWide (← ratio.toNat?) (← bw.toNat?) (← aw.toNat?) (← pg.toNat?) (← pBanks rest) (← off.toNat?)))
+  | "sweep" :: bw :: aw :: pg :: rest => do
+    let bw ← bw.toNat?; let aw ← aw.toNat?; let pg ← pg.toNat?; let banks ← pBanks rest
+    let hits := (List.range (2 ^ aw)).flatMap fun adr =>
+      (decodeFrom pg bw adr 0 banks).map fun e => s!"{adr}:{e.1}:{e.2}"
+    some (if hits.isEmpty then "-" else unwords hits)
   | "accread" :: bw :: nw :: ws => do
     let bw ← bw.toNat?
     match ctypeBits (← nw.toNat?) bw with
